@@ -6,7 +6,7 @@ META = {
                    "tracked region (SG8, call graph with RTA), pipe/list pairing of the SIGCHLD helper (SG6), reap loop until (0,0) "
                    "recording every pid (SG7, SGc), a bounded timeout on the blocking self-pipe wait so that a SIGCHLD delivered just before the syscall cannot be lost (SG9), attribution of a completion to the entry of exactly that pid (INF1), main-loop shape "
                    "(EX8) and no op lost between queues (EX3, EX6, EX7, EX1); slot accounting cannot underflow (EX14, EX15: an IndexError from the pool would end the run with tasks unaccounted for). One lowering per task and one count per lowered task (W1, PL6–PL8): a task is reported exactly once.",
-    "rules": ["RT10", "SG8", "SG6", "SG9", "SG7", "SGc", "INF1", "EX8", "EX3", "EX6", "EX7", "EX1", "EX14", "EX15", "W1(planner)", "PL6", "PL7", "PL8"],
+    "rules": ["RT10", "SG8", "SG6", "SG9", "SG7", "SGc", "INF1", "EX8", "EX3", "EX6", "EX7", "EX1", "EX14", "EX15", "W1(planner)", "PL6", "PL7", "PL8", "DUP1"],
     "assumptions": ["liveness proper (progress under every batching of SIGCHLD) is argued from SG6/SG7/EX6–EX8, not decided",
                     "a grandchild keeping the tee pipe open delays finish() — run-time behaviour"],
     "trusted": ["ast parser", "own call resolver + RTA", "CPython: a dropped Popen of a live child is parked on subprocess._active"],
@@ -34,3 +34,6 @@ def run(A, rep, tier):
     F = P.PlannerFacts(A)
     P.rule_w1_planner(A, rep, F)
     P.rules_planner_counts(A, rep, F)
+    # a dependency listed twice under two spellings is linked twice: its dependent is released (and run, and reported) twice
+    from . import graphs as G
+    G.rule_dup1(A, rep)
